@@ -52,9 +52,8 @@ def validate_current(P, ctx, T, rule):
 
 def exit_descriptor(g, node, N=None):
     """structural name of a normal exit: the branch conditions that lead directly to it
-    (`return@<cond>=T|...`), or `end` for the fall-off end reached unconditionally"""
-    if node['kind'] == 'exit':
-        return 'end'
+    (`return@<cond>=T|...`; the fall-off end of the function is named the same way, so `if (!c) return; work;` and
+    `if (c) { work; }` give the same name), or `end` for the fall-off end reached unconditionally"""
     conds = []
     seen = set()
     stack = [(p, l) for (p, l) in node['pred']]
@@ -68,6 +67,8 @@ def exit_descriptor(g, node, N=None):
             conds.append('%s=%s' % (ir.fmt(N.canon(pn['expr']) if N else ir.canon(pn['expr'])), 'T' if l else 'F'))
         elif pn['kind'] == 'join':
             stack.extend(pn['pred'])
+    if not conds and node['kind'] == 'exit':
+        return 'end'
     if not conds:
         return 'return-after(%s)' % (ir.fmt(ir.canon(g.nodes[node['pred'][0][0]]['expr']))[:40] if node['pred'] and g.nodes[node['pred'][0][0]]['expr'] is not None else 'entry')
     return 'return@' + '|'.join(sorted(conds))
@@ -481,7 +482,7 @@ def check_registered_before_use(P, ctx, rule='C06.registered-before-use'):
         cs = [(n, c) for n in g.live() if n['expr'] is not None for c in ir.calls(n['expr']) if ir.callee_name(c) == user]
         ok = len(cs) == 1
         if ok:
-            a0 = ir.top_nocast(cs[0][1][2][0])
+            a0 = ir.top_nocast(util.Norm(P, fn, expand_locals=True, inline=False).canon(cs[0][1][2][0]))      # a local that only holds the allocator's result is the same thing
             ok = a0[0] == 'call' and ir.callee_name(a0) == allocator
             # no separate registration afterwards (that would mean the object was unregistered while user code ran)
             late = [c for c, _ in ir.all_calls(fn['body']) if ir.callee_name(c) == 'set' and c[2] and ir.top_nocast(c[2][0])[0] == 'call' and ir.callee_name(ir.top_nocast(c[2][0])) == 'current']
